@@ -12,13 +12,16 @@ import (
 	"fmt"
 	"os"
 	"regexp"
+	"runtime"
 	"runtime/debug"
 	"sort"
 	"strconv"
 	"strings"
 	"sync"
+	"sync/atomic"
 	"testing"
 	"testing/synctest"
+	"time"
 )
 
 // Violation is one contradiction of an oracle.
@@ -48,6 +51,7 @@ type Result struct {
 	Violations []Violation         `json:"violations"`
 	Inconcl    []string            `json:"inconclusive"`
 	Completed  bool                `json:"completed"`
+	Aborted    string              `json:"aborted,omitempty"` // the spin monitor ended the shard after recording a violation
 }
 
 // Run is the per-process state of a check.
@@ -68,6 +72,7 @@ type Run struct {
 	sigSeen  map[string]bool
 	inCase   string
 	maxSamp  int
+	activity atomic.Int64 // moves whenever a monitor records anything
 }
 
 const distinctCap = 200000
@@ -179,7 +184,10 @@ func (r *Run) runCase(name string, bubble bool, fn func(c *Case)) {
 	r.res.Cases++
 	r.mu.Unlock()
 	c := &Case{R: r, Name: name, T: r.T}
+	r.mu.Lock()
 	r.inCase = name
+	r.mu.Unlock()
+	r.activity.Add(1)
 	normal := false
 	defer func() {
 		if p := recover(); p != nil {
@@ -196,7 +204,9 @@ func (r *Run) runCase(name string, bubble bool, fn func(c *Case)) {
 			c.Violation(sig, msg+"\n"+trimStack(st), nil)
 		}
 		if normal {
+			r.mu.Lock()
 			r.inCase = ""
+			r.mu.Unlock()
 		}
 	}()
 	if bubble {
@@ -261,6 +271,7 @@ func (c *Case) Go(done func(), fn func()) {
 // Violation records a violation found by this case.
 func (c *Case) Violation(sig, detail string, witness any) {
 	r := c.R
+	r.activity.Add(1)
 	r.mu.Lock()
 	defer r.mu.Unlock()
 	r.res.Counters["violations_raw"]++
@@ -290,6 +301,7 @@ func (r *Run) Inconclusive(why string) {
 
 // Count adds n to a counter.
 func (r *Run) Count(key string, n int64) {
+	r.activity.Add(1)
 	r.mu.Lock()
 	r.res.Counters[key] += n
 	r.mu.Unlock()
@@ -313,6 +325,7 @@ func (r *Run) Min(key string, v int64) {
 
 // Distinct adds key to the named set of distinct observations.
 func (r *Run) Distinct(set string, key string) {
+	r.activity.Add(1)
 	h := sha256.Sum256([]byte(key))
 	var k [8]byte
 	copy(k[:], h[:8])
@@ -340,6 +353,129 @@ func (r *Run) Sample(v any) {
 		r.res.Samples = append(r.res.Samples, v)
 	}
 	r.mu.Unlock()
+}
+
+// ---- spin monitor -------------------------------------------------------
+//
+// A goroutine of the code under test that loops without ever blocking keeps a
+// synctest bubble from becoming quiescent, so this one condition ("spins
+// without consuming input") cannot be decided by state at quiescence: the case
+// simply never gets there.  SpinWatch decides it from outside the bubble.  It
+// needs the wall clock, but only as a sampling interval, never as a deadline
+// for correct code: a violation is reported only if
+//   - progress() (bytes moved over the in-memory wires of the process) and the
+//     monitors' own activity counter have both stood still for quiet+gap of
+//     wall time inside one case, and
+//   - two goroutine dumps taken gap apart both show the same goroutine in state
+//     running/runnable with a frame of the code under test on its stack.
+// A goroutine that waits (channel, mutex, Cond, sleep, I/O) is in neither
+// state, and legitimate computation in this code base lasts milliseconds.
+// Anything else that hangs is left to the orchestrator's watchdog
+// (inconclusive).  Only checks whose calls into the code under test are all
+// wire-bound enable it.
+var reGoroutine = regexp.MustCompile(`(?m)^goroutine (\d+) \[(running|runnable)[^\]]*\]:$`)
+
+const underTest = "gitlab.com/yawning/obfs4.git/"
+
+func spinning(dump string) map[string]string {
+	out := map[string]string{}
+	for _, blk := range strings.Split(dump, "\n\n") {
+		m := reGoroutine.FindStringSubmatch(blk)
+		if m == nil || !strings.Contains(blk, underTest) {
+			continue
+		}
+		out[m[1]] = blk
+	}
+	return out
+}
+
+func allStacks() string {
+	buf := make([]byte, 1<<20)
+	for {
+		n := runtime.Stack(buf, true)
+		if n < len(buf) {
+			return string(buf[:n])
+		}
+		buf = make([]byte, 2*len(buf))
+	}
+}
+
+// SpinWatch starts the spin monitor for this process (call once, outside any
+// bubble, before the first case).
+func (r *Run) SpinWatch(progress func() int64) {
+	quiet, gap := 30*time.Second, 10*time.Second
+	if v := os.Getenv("VERIF_SPIN_QUIET_S"); v != "" {
+		if n, err := strconv.Atoi(v); err == nil && n > 0 {
+			quiet = time.Duration(n) * time.Second
+		}
+	}
+	r.Note("spin_monitor", fmt.Sprintf("on: no wire bytes moved and no monitor activity for %v inside one case, then two goroutine dumps %v apart both showing the same goroutine running/runnable in code under test", quiet, gap))
+	go func() {
+		state := func() (string, int64) {
+			r.mu.Lock()
+			c := r.inCase
+			r.mu.Unlock()
+			return c, progress() + r.activity.Load()
+		}
+		lastCase, lastP := state()
+		since := time.Now()
+		for {
+			time.Sleep(2 * time.Second)
+			c, p := state()
+			if c == "" || c != lastCase || p != lastP {
+				lastCase, lastP, since = c, p, time.Now()
+				continue
+			}
+			if time.Since(since) < quiet {
+				continue
+			}
+			d1 := spinning(allStacks())
+			if len(d1) == 0 {
+				since = time.Now() // blocked, not spinning: not ours to judge
+				continue
+			}
+			time.Sleep(gap)
+			if c2, p2 := state(); c2 != c || p2 != p {
+				lastCase, lastP, since = c2, p2, time.Now()
+				continue
+			}
+			d2 := spinning(allStacks())
+			for id, blk1 := range d1 {
+				blk2, ok := d2[id]
+				if !ok {
+					continue
+				}
+				frame := ""
+				for _, ln := range strings.Split(blk2, "\n") {
+					ln = strings.TrimSpace(ln)
+					if strings.HasPrefix(ln, underTest) {
+						frame = strings.TrimPrefix(ln, underTest)
+						if i := strings.LastIndex(frame, "("); i > 0 {
+							frame = frame[:i]
+						}
+						break
+					}
+				}
+				cs := &Case{R: r, Name: c}
+				cs.Violation("spin/"+frame, fmt.Sprintf("goroutine %s was running/runnable in code under test in two dumps %v apart while no byte moved on any wire and no monitor recorded anything for %v (case %s)\n--- first dump\n%s\n--- second dump\n%s", id, gap, time.Since(since).Round(time.Second), c, trimStack(blk1), trimStack(blk2)), nil)
+				r.abort("spin")
+			}
+			since = time.Now()
+		}
+	}()
+}
+
+// abort writes the shard result as it stands and ends the process.
+func (r *Run) abort(why string) {
+	r.mu.Lock()
+	r.res.Aborted = why
+	r.res.Completed = false
+	if r.outPath != "" {
+		if b, err := json.Marshal(&r.res); err == nil {
+			os.WriteFile(r.outPath, b, 0o644)
+		}
+	}
+	os.Exit(3)
 }
 
 // Finish writes the shard result.  Must be called at the end of TestCheck.
